@@ -250,6 +250,31 @@ def as_bytes_encodes_current(ctx: Ctx, rule: str):
     if not loops:
         ctx.fail(cons, f.loc(), "Message.as_bytes does not encode `self.avps` member by member", rule=rule)
         return
+    # ... and in the order of the list: what the loop walks is `self.avps` itself, not a sorted,
+    # filtered, reversed or de-duplicated rendering of it
+    cons2 = "Message.as_bytes:encodes-in-list-order"
+    ctx.inst(cons2, rule=rule)
+    for n in loops:
+        its = [n.ast.iter] if n.kind == "iter" else [
+            gen.iter for x in n.walk() if isinstance(x, (ast.ListComp, ast.GeneratorExp))
+            for gen in x.generators if "avps" in ast.unparse(gen.iter)]
+        for it in its:
+            vals = [it]
+            if isinstance(it, ast.Name):
+                vals = [d.value for d in A.walk_no_nested(f.node)
+                        if isinstance(d, (ast.Assign, ast.AnnAssign)) and d.value is not None
+                        and any(isinstance(t, ast.Name) and t.id == it.id for t in A.store_targets(d))]
+                vals += [d for d in A.walk_no_nested(f.node) if isinstance(d, ast.AugAssign)
+                         and isinstance(d.target, ast.Name) and d.target.id == it.id]
+                vals = vals or [it]
+            for v in vals:
+                if A.dotted(v) != "self.avps":
+                    ctx.fail(cons2, f.loc(v), f"Message.as_bytes walks `{ast.unparse(v)[:70]}` instead of "
+                             f"`self.avps`: the AVPs are written in another order (or another selection) than "
+                             f"the list holds, so a decoded message is not re-encoded to the bytes it came "
+                             f"from whenever the rendering is not the identity (e.g. a Session-Id that is not "
+                             f"the first AVP)", rule=rule, expected="for avp in self.avps",
+                             observed=ast.unparse(v)[:120])
     r = g.reach([g.entry], blocked=loops)
     if g.exit in r:
         ret = [n for n in r if n.kind == "stmt" and isinstance(n.ast, ast.Return)]
